@@ -26,6 +26,7 @@ type AbsReq struct {
 	K     string   `json:"k"`     // get set mget del mset ping quit auth authbad unknown arity  | raw command name
 	Slots []string `json:"slots"` // abstract slot name per key
 	Args  []string `json:"args"`  // explicit args (raw commands)
+	Dups  []int    `json:"dups"`  // per key: -1, or the position whose key string this position repeats
 }
 
 // Stim is one environment choice applied while the loop is parked.
@@ -41,6 +42,7 @@ type Stim struct {
 	Count int      `json:"count"`
 	Src   string   `json:"src"`  // source address for "open"
 	Text  string   `json:"text"` // free text (topology description name, file content ...)
+	Cuts  []int    `json:"cuts"` // for "send": byte offsets at which the write is cut; every chunk but the last gets its own iteration
 }
 
 type Step struct {
@@ -51,6 +53,7 @@ type Step struct {
 
 type Scenario struct {
 	Id    string `json:"id"`
+	Role  string `json:"role"` // "base" / "seg": a pair whose outcomes are compared (C08)
 	Steps []Step `json:"steps"`
 }
 
@@ -117,6 +120,7 @@ type Event struct {
 	Conn  string    `json:"conn"`
 	K     string    `json:"k"`
 	Slots []string  `json:"slots"`
+	Dups  []int     `json:"dups"`
 	Toks  []Tok     `json:"toks"`
 	Rep   AbsRep    `json:"rep"`
 	Fid   string    `json:"fid"`
@@ -136,6 +140,12 @@ func (e *Event) norm() {
 	}
 	if e.Toks == nil {
 		e.Toks = []Tok{}
+	}
+	if e.Dups == nil {
+		e.Dups = []int{}
+	}
+	for len(e.Dups) < len(e.Slots) {
+		e.Dups = append(e.Dups, -1)
 	}
 	if e.Rep.Toks == nil {
 		e.Rep.Toks = []Tok{}
